@@ -1,7 +1,9 @@
 from api import H, prop, mut, claim
+import re
 F = "harness/C18_hex.c"
 D = ["-D__NO_CTYPE"]
 FN = ["hex_get_byte"]
+SOLVERS = ("minisat", "cadical")   # measured: minisat answers the step queries 5-10x faster than cadical here; both run, first verdict wins
 
 # hex_get_byte has three overlapping goto-formed loops (hex.c: goto next_line out of the white-space loop, the white-space loop itself, goto next_line after
 # skipping a junk line).  cbmc's dynamic unwinding counters are not reset when such a loop is left, which makes unwinding assertions fail spuriously, so these
@@ -11,39 +13,126 @@ def _hexloops(left):
     return ["hex_get_byte.0:%d" % (left + 1), "hex_get_byte.1:%d" % (left + 1), "hex_get_byte.2:%d" % (left // 2 + 1)]
 
 def _step(L, tiers, timeout):
+    """hex_get_byte step contract on arbitrary text: one query per (string length, first call | continuation at offset | ended sequence)."""
     hs = []
     for n in range(L + 1):
         d = D + ["-DLMAX=%d" % max(n, 1), "-DNFIX=%d" % n]
-        kw = dict(unwind=12, unwindset=["strchr.0:%d" % (n + 2)], timeout=timeout, tiers=tiers, solvers=("minisat", "cadical"))
+        kw = dict(unwind=12, unwindset=["strchr.0:%d" % (n + 2)], timeout=timeout, tiers=tiers, solvers=SOLVERS)
         hs.append(H("step_len%d_first" % n, F, "h_step", FN, defs=d + ["-DFIRSTFIX=1"], static_unwind=_hexloops(n),
-                    bounded="first call (s != NULL) on every string of exactly %d characters (heap object of %d bytes), any stale cursor" % (n, n + 1), **kw))
+                    bounded="first call (s != NULL) on every string of exactly %d non-NUL characters (heap object of %d bytes), any stale cursor" % (n, n + 1), **kw))
         for off in range(n + 1):
             hs.append(H("step_len%d_cont_off%d" % (n, off), F, "h_step", FN, defs=d + ["-DFIRSTFIX=0", "-DNULLFIX=0", "-DOFFFIX=%d" % off],
                         static_unwind=_hexloops(n - off),
-                        bounded="continuation call (s == NULL) with the cursor at offset %d of every string of exactly %d characters" % (off, n), **kw))
+                        bounded="continuation call (s == NULL) with the cursor at offset %d of every string of exactly %d non-NUL characters" % (off, n), **kw))
         hs.append(H("step_len%d_ended" % n, F, "h_step", FN, defs=d + ["-DFIRSTFIX=0", "-DNULLFIX=1"], static_unwind=_hexloops(0),
-                    bounded="continuation call with a NULL cursor; string of %d characters" % n, **kw))
+                    bounded="continuation call with a NULL cursor (the sequence has ended); string of %d characters" % n, **kw))
     return hs
 
-def _dump(sizes, tiers, timeout, stdout_sizes=()):
+def _frame(n, tiers, timeout):
+    """the DFCC contract of contracts/hex_contract.h (assigns only *p, result range, -1 leaves NULL) enforced by goto-instrument on the same harness"""
+    d = D + ["-DLMAX=%d" % max(n, 1), "-DNFIX=%d" % n]
+    return [H("frame_len%d_%s" % (n, nm), F, "h_step", FN, defs=d + fx, static_unwind=_hexloops(n), enforce=["hex_get_byte"], unwind=12,
+              unwindset=["strchr.0:%d" % (n + 2)], timeout=timeout, tiers=tiers, solvers=SOLVERS,
+              bounded="DFCC-enforced frame/range contract of hex_get_byte on strings of exactly %d characters, %s" % (n, what))
+            for nm, fx, what in (("first", ["-DFIRSTFIX=1"], "first call"), ("cont", ["-DFIRSTFIX=0"], "continuation from any offset or NULL"))]
+
+def _dump(sizes, tiers, timeout, stdout_sizes=(), whole_upto=4):
+    """dump format per array length; round trip as a step lemma on the real dumped text (all k, both ends of the gap) and, for short arrays, as a whole loop"""
     hs = []
     for m in sizes:
         text = 2 * m + (m + 15) // 16
         d = D + ["-DMMAX=%d" % max(m, 1), "-DMFIX=%d" % m]
-        kw = dict(unwind=max(m, 16) + 2, unwindset=["strchr.0:%d" % (text + 2), "text_copy.0:161"], timeout=timeout, tiers=tiers, solvers=("minisat", "cadical"))
-        b = "arrays of exactly %d bytes" % m
+        kw = dict(unwind=max(m, 16) + 2, unwindset=["strchr.0:%d" % (text + 2), "text_copy.0:161"], timeout=timeout, tiers=tiers, solvers=SOLVERS)
+        b = "arrays of exactly %d bytes (all byte values)" % m
         hs.append(H("dump_len%d" % m, F, "h_dump", ["hex_dump_to_file"], defs=d, bounded=b, **kw))
         if m in stdout_sizes:
             hs.append(H("dump_stdout_len%d" % m, F, "h_dump_stdout", ["hex_dump", "hex_dump_to_file"], defs=d, bounded=b, **kw))
-        if m <= 4:
+        if m <= whole_upto:
             hs.append(H("roundtrip_len%d" % m, F, "h_roundtrip", ["hex_dump_to_file", "hex_get_byte"], defs=d, static_unwind=_hexloops(2), bounded=b, **kw))
-        hs.append(H("roundtrip_step_len%d" % m, F, "h_roundtrip_step", ["hex_dump_to_file", "hex_get_byte"], defs=d, static_unwind=_hexloops(2), bounded=b, **kw))
+        hs.append(H("roundtrip_step_len%d" % m, F, "h_roundtrip_step", ["hex_dump_to_file", "hex_get_byte"], defs=d, static_unwind=_hexloops(2),
+                    bounded=b + ", one hex_get_byte call after k = 0..%d delivered bytes, cursor at either end of the gap before pair k" % m, **kw))
     return hs
 
-def _frame(n, tiers, timeout):
-    d = D + ["-DLMAX=%d" % max(n, 1), "-DNFIX=%d" % n]
-    return [H("frame_len%d_%s" % (n, nm), F, "h_step", FN, defs=d + fx, static_unwind=_hexloops(n), enforce=["hex_get_byte"], unwind=12,
-              unwindset=["strchr.0:%d" % (n + 2)], timeout=timeout, tiers=tiers, solvers=("minisat", "cadical"),
-              bounded="DFCC-enforced frame/range contract of hex_get_byte (contracts/hex_contract.h) on strings of exactly %d characters" % n)
-            for nm, fx in (("first", ["-DFIRSTFIX=1"]), ("cont", ["-DFIRSTFIX=0"]))]
-prop("C18", "model_checking", "wip", _frame(3, ("quick",), 600) + _step(5, ("quick",), 600) + _dump([0, 1, 2, 3, 4, 15, 16, 17], ("quick",), 600, stdout_sizes=(17,)))
+QUICK_L, THOROUGH_L = 5, 7
+QUICK_M = [0, 1, 2, 3, 4, 15, 16, 17]
+THOROUGH_M = list(range(0, 34))
+HS = (_step(QUICK_L, ("quick",), 600) + _frame(3, ("quick",), 600) + _dump(QUICK_M, ("quick",), 600, stdout_sizes=(17,), whole_upto=4) +
+      _step(THOROUGH_L, ("thorough",), 3000) + _frame(4, ("thorough",), 3000) + _dump(THOROUGH_M, ("thorough",), 3000, stdout_sizes=(0, 16, 33), whole_upto=6))
+
+def _mc(tier, recs):
+    """Counts the abstract cases that the discharged queries of this run covered; derived from the harness names (which carry the partition)."""
+    text_states, dump_states, calls = set(), set(), 0
+    for h, r in recs:
+        m = re.match(r"(?:step|frame)_len(\d+)_(first|ended|cont)(?:_off(\d+))?$", h.name)
+        if m:
+            n = int(m.group(1))
+            if m.group(2) == "cont" and m.group(3) is None:      # frame_*_cont: cursor symbolic over 0..n and NULL
+                cases = [(n, "cont", o) for o in range(n + 1)] + [(n, "ended", None)]
+            else:
+                cases = [(n, m.group(2), int(m.group(3)) if m.group(3) else None)]
+            text_states.update(cases)
+            calls += len(cases)
+            continue
+        m = re.match(r"roundtrip_step_len(\d+)$", h.name)
+        if m:
+            mm = int(m.group(1))
+            cases = [(mm, k, end) for k in range(mm + 1) for end in ("after pair k-1", "at pair k")]
+            dump_states.update(cases)
+            calls += len(cases)
+            continue
+        m = re.match(r"roundtrip_len(\d+)$", h.name)
+        if m:
+            calls += int(m.group(1)) + 1                         # m+1 real hex_get_byte calls in sequence on the real dump
+            dump_states.add((int(m.group(1)), "whole", None))
+            continue
+        m = re.match(r"dump(?:_stdout)?_len(\d+)$", h.name)
+        if m:
+            calls += 1
+            dump_states.add((int(m.group(1)), "dump", h.entry))
+    st = len(text_states) + len(dump_states)
+    return {"states": st, "transitions": calls, "traces_validated_against_impl": calls,
+            "rule_model_checking": "states = distinct abstract start states covered by the queries discharged in this run, each symbolically over ALL contents: "
+                                   "(string length, first call | continuation at cursor offset | ended sequence) for arbitrary text - %d of them - plus (array length, bytes already "
+                                   "delivered, cursor end of the gap) / (array length, whole loop) / (array length, dump entry point) for dumped text - %d of them; counted by this function from the "
+                                   "partition encoded in the names of the discharged harnesses; transitions = executions of the real hex_get_byte / hex_dump_to_file from those states "
+                                   "(one per step state, m+1 per whole round trip); there is no separate model - every transition is the real hex.c under CBMC - hence "
+                                   "traces_validated_against_impl = transitions. Byte contents are not enumerated (symbolic), so these numbers count partitions, not inputs."
+                                   % (len(text_states), len(dump_states))}
+
+prop("C18", "model_checking",
+     "Bounded stand-in (DESIGN 5.C18, P5). (a) Step contract of the real hex_get_byte on arbitrary text: a string of n non-NUL characters in a heap object of exactly n+1 bytes "
+     "(quick n <= %d, thorough n <= %d), every content, as a first call (s != NULL) or a continuation (s == NULL) with the cursor at every offset 0..n, or NULL. Obligations: result in -1..255; "
+     "on success the cursor lies inside the string at least two characters beyond the start (so at most n/2 calls succeed and -1 is reached: induction on the cursor); on -1 the cursor is NULL; "
+     "a NULL cursor gives -1 again; the text is unchanged; every read is inside the object (CBMC pointer checks); and the value agrees with a reference reader written from the statement "
+     "(optional 0x, either case, white space, newline, 'address:' prefix at the start of a line) wherever the statement determines it. One query per (n, first | continuation offset | ended). "
+     "(b) hex_dump_to_file / hex_dump with the C library output calls captured in a ghost buffer: two lower-case digits per byte, newline after every 16th pair, array unchanged; "
+     "round trip as a step lemma on the real dumped text (after k delivered bytes, cursor at either end of the gap before pair k, the call returns byte k and leaves the cursor in the next gap; "
+     "k = m gives -1 and NULL) for array lengths %s (quick) / 0..33 (thorough), all byte values, plus the whole dump-parse loop for arrays of <= 4 (quick) / 6 (thorough) bytes. "
+     "hex_get_byte's loops are goto-formed and run over caller-sized data: they are unwound statically with unwinding assertions, so every result is bounded by the string / array length."
+     % (QUICK_L, THOROUGH_L, ",".join(map(str, QUICK_M))),
+     HS, mc=_mc,
+     trusted=["CBMC's models of malloc (exact object bounds), strchr, isspace, isxdigit (C locale)",
+              "the harness's capture of fprintf/fputc/fputs (literal text, %c, %x, %s) stands for the C library's formatted output"],
+     assumptions=["text length bound: %d (quick) / %d (thorough) characters; longer strings are not covered - every two-token interaction the record names "
+                  "(0x at the end, lone digit before the NUL, pair after 'addr:', newline before a pair, address prefix on a later line) fits into 5 characters" % (QUICK_L, THOROUGH_L),
+                  "address prefix: value demanded only where the statement is unambiguous - the address is one or more letters/digits directly followed by ':', on a line reached as a "
+                  "first call or by running over a newline; continuation calls use the s == NULL convention",
+                  "termination and stickiness of -1 for call sequences follow by induction from the per-call contract (cursor strictly increases inside the string; NULL is absorbing)",
+                  "round trip on arrays longer than the whole-loop bound is by induction over the step lemma (gap invariant), array lengths as listed",
+                  "plain char is signed (x86-64) in this build"])
+claim("C18", "model_checking",
+      "CBMC harness-enforced step contract on the real hex.c over exactly-sized heap strings, partitioned by (length, first/continuation, cursor offset); reference reader from the statement; "
+      "captured output for the dump; round-trip step lemma on real dumped text; DFCC frame contract; static unwinding of the goto loops with unwinding assertions",
+      "Every string of up to 5 (quick) / 7 (thorough) characters with every content, every cursor position and both calling conventions: memory safety (no read outside the exactly-sized object), "
+      "result range, cursor progress / NULL end protocol, values where the statement determines them; every byte array of the listed lengths (0..4, 15..17 quick; 0..33 thorough) for dump format and round trip.",
+      "Bounded stand-in, never counted as proved: strings longer than the bound and arrays longer than 33 bytes are outside; induction over calls is a paper argument on top of the machine-checked step contract.",
+      "DESIGN.md 5.C18")
+
+# self-test mutants (realistic, from why_tests_cant: end-of-string safety, end protocol, line handling, dump format)
+mut("C18", "0x-test-reads-past-nul", [("librfn/hex.c", "if ('0' == s[0] && 'x' == s[1])", "if ('x' == s[1] && '0' == s[0])")], r"dereference failure")
+mut("C18", "lone-digit-accepted-as-pair", [("librfn/hex.c", "if (isxdigit((int) s[0]) && isxdigit((int) s[1])) {", "if (isxdigit((int) s[0])) {")],
+    r"stays within the string|returns only values in 0\.\.255|returned as its value")
+mut("C18", "end-cursor-not-cleared", [("librfn/hex.c", "\ts = *p = strchr(s, '\\n');", "\ts = strchr(s, '\\n');")], r"on -1 the cursor becomes NULL|returns -1")
+mut("C18", "dump-15-pairs-per-line", [("librfn/hex.c", "i<16 && sz > 0;", "i<15 && sz > 0;")], r"16 pairs per line|two characters per byte plus one newline")
+mut("C18", "dump-upper-case", [("librfn/hex.c", "\treturn 'a' - 10 + h;", "\treturn 'A' - 10 + h;")], r"lower-case")
+mut("C18", "nibble-case-fold-mask", [("librfn/hex.c", "return (h & ~('a' - 'A')) - 'A' + 10;", "return (h & ~('a' - 'B')) - 'A' + 10;")], r"returned as its value|returns only values|returns byte k", skip_tests=True)
